@@ -1,3 +1,5 @@
 import ArroyProofs.AuditCmd
 import ArroyProofs.Properties.C10
+import ArroyProofs.Properties.C10Reach
+import ArroyProofs.Properties.Unconditional
 #audit Arroy.C10
